@@ -81,6 +81,8 @@ def decJ (s : String) : Option J :=
 /-- the key the harness installs for encrypt-mode operations (harness.go verifGoodKey) -/
 def goodKey : Bytes := (List.range 64).map fun i => (i * 7 + 3).toUInt8
 
+def goodKey2 : Bytes := (List.range 64).map fun i => (i * 11 + 5).toUInt8
+
 def asciiOfBytes (b : Bytes) : Str := b.map fun x => Char.ofNat x.toNat
 def bytesOfAscii (s : Str) : Bytes := s.map fun c => c.toNat.toUInt8
 
@@ -105,6 +107,7 @@ def parseCfg (s : String) : LineCfg := Id.run do
         if v == "1" then cfg := { cfg with enc := some fun s => some ("ENC(".toList ++ s ++ ")".toList) }
         else if v == "2" then cfg := { cfg with enc := some fun _ => none }
         else if v == "3" then cfg := { cfg with enc := some fun s => some (Base64.enc (Siv.aesEnc goodKey (utf8 s))) }
+        else if v == "4" then cfg := { cfg with enc := some fun s => some (Base64.enc (Siv.aesEnc goodKey2 (utf8 s))) }
     | _ => pure ()
   if z then
     let names := zm
